@@ -65,7 +65,7 @@ def render(sc, vtool, log, extra=None):
             L.append("  description = %s" % st["description"])
         if st["restat"]:
             L.append("  restat = 1")
-        if st["generator"]:
+        if st["generator"] and not st.get("gen_on_build"):
             L.append("  generator = 1")
         if st["deps"] in ("gcc", "msvc"):
             L.append("  deps = %s" % st["deps"])
@@ -90,6 +90,8 @@ def render(sc, vtool, log, extra=None):
         L.append(line)
         if st["pool"] and st["kind"] != "phony":
             L.append("  pool = %s" % st["pool"])
+        if st["generator"] and st.get("gen_on_build"):
+            L.append("  generator = 1")
         if st["dyndep"]:
             L.append("  dyndep = %s" % st["dyndep"])
     if sc.get("regen_manifest"):
@@ -338,6 +340,10 @@ def c06_case(ctx, seed):
         else:
             limit = rng.choice((1, 2, 3, 8))
             args = ["-j%d" % limit, "-k", str(rng.choice((1, 0)))]
+            if rng.random() < 0.3:
+                # a load limit that is always exceeded: ninja may only start a command when nothing runs, and must still get through
+                args += ["-l", rng.choice(("0.01", "0.5"))]
+                rep["load_limited"] = True
         p = t.popen(args, env=env)
         thief_took = 0
         if mode == "jobserver" and rng.random() < 0.4 and ntok:
@@ -392,6 +398,14 @@ def c06_case(ctx, seed):
         if len(starts) != len(set(starts)):
             ctx.violation("C06/e2e-started-twice", "%s: %s" % (what, starts), rep)
             return
+        if path == "success":
+            # "always terminates, either having run everything needed or with an error"
+            ctx.count("e2e_completeness_checks")
+            want = {s["outs"][0] for s in sc["stmts"]}
+            if rc != 0 or set(starts) != want:
+                ctx.violation("C06/e2e-exit-0-with-work-left%s" % ("/load-limited" if rep.get("load_limited") else "") if rc == 0 else "C06/e2e-build-failed",
+                              "%s (%s): exit %s, started %s of %s: %s" % (what, " ".join(args), rc, sorted(starts), sorted(want), txt[-200:]), rep)
+                return
         if mode == "jobserver":
             time.sleep(0.05)
             got = 0
